@@ -15,7 +15,7 @@ from vf.hyp import CaseResult
 ID = 'C18'
 LEVEL = 'exploration'
 ENGINE = 'vsched'
-RULE = ('Domain A (the protocol): a SubscribableStateMixin subclass with a counter, or a UserInput plug, with 1-2 watcher threads '
+RULE = ('Domain A (the protocol): a SubscribableStateMixin subclass with a counter, a UserInput plug, or a frontend-aware plug polled through PlugManager.wait_for_plug_update (the station\'s long poll), with 1-2 watcher threads '
         'looping "snapshot, event = asdict_with_event(); stop if final; event.wait()" (no timeout) and 1-2 updater threads doing '
         '"mutate; notify_update()"; every source line of SubscribableStateMixin / UserInput plus every primitive operation is a '
         'yield point; ALL schedules with <=1 preemption and (sharded; complete in the thorough tier for the 1x1 configuration) <=2 '
@@ -73,6 +73,52 @@ def protocol_case(cfg):
         with mu:
           obj.n += 1
         obj.notify_update()
+    elif cfg['subject'] == 'plug_manager':
+      # the station's long-poll entry point: PlugManager.wait_for_plug_update(name, last seen state, timeout)
+      import openhtf.plugs as plugs_  # pylint: disable=g-import-not-at-top
+      from openhtf.core import base_plugs  # pylint: disable=g-import-not-at-top
+
+      class CounterPlug(base_plugs.FrontendAwareBasePlug):
+        def __init__(self):
+          super(CounterPlug, self).__init__()
+          self.n = 0
+
+        def _asdict(self):
+          return {'n': self.n}
+
+      pm = plugs_.PlugManager(plug_types={CounterPlug})
+      pm.initialize_plugs()
+      plug_name = pm.get_plug_name(CounterPlug) if hasattr(pm, 'get_plug_name') else '%s.%s' % (CounterPlug.__module__, CounterPlug.__name__)
+      obj = pm.provide_plugs([('p', CounterPlug)])['p']
+      mu = V.VLock(s)
+
+      def final(snap):
+        return snap is not None and snap['n'] == total
+
+      def update(u, j):
+        with mu:
+          obj.n += 1
+        obj.notify_update()
+
+      def watcher(i):   # pylint: disable=function-redefined
+        state, n_loops = None, 0
+        while True:
+          n_loops += 1
+          new = pm.wait_for_plug_update(plug_name, state, 1000.0)
+          if new is None:
+            # 1000 virtual seconds passed: every update was issued long ago and this poll was not woken
+            seen.append((i, 'timed-out-although-state-changed' if obj.n != (state or {}).get('n') else 'timed-out'))
+            return
+          state = new
+          if final(state):
+            seen.append((i, n_loops))
+            return
+
+      ws = [_spawn(lambda i=i: watcher(i), 'watcher%d' % i) for i in range(cfg['watchers'])]
+      us = [_spawn(lambda u=u: [update(u, j) for j in range(cfg['updates'])], 'updater%d' % u) for u in range(cfg['updaters'])]
+      for t in us + ws:
+        t.join()
+      return seen
     else:
       from openhtf.plugs import user_input  # pylint: disable=g-import-not-at-top
       obj = user_input.UserInput()
@@ -135,13 +181,15 @@ def judge(s, res, exc, expected_watchers, tag):
     out.append(('C18/%s/raised/%s' % (tag, type(exc).__name__), repr(exc)))
   elif res is None or len(res) != expected_watchers:
     out.append(('C18/%s/watcher-missed-final-state' % tag, 'watchers that saw the final state: %r of %d' % (res, expected_watchers)))
+  elif any(isinstance(x[1], str) and x[1].startswith('timed-out') for x in res):
+    out.append(('C18/%s/poll-timed-out-although-state-changed' % tag, 'a long poll returned None after 1000 virtual seconds: %r' % (res,)))
   return out
 
 
 def in_protocol(pre):
   """An effective preemption inside the subscribe / notify protocol (tag names a protocol method)."""
   for k, frm, to, tag in pre:
-    if tag and tag[0] == 'line' and tag[1] in ('asdict_with_event', 'notify_update', '_asdict', 'start_prompt', 'respond', 'remove_prompt'):
+    if tag and tag[0] == 'line' and tag[1] in ('asdict_with_event', 'notify_update', '_asdict', 'start_prompt', 'respond', 'remove_prompt', 'wait_for_plug_update'):
       return True
     if tag and tag[0] in ('event.wait', 'event.set', 'lock.acquire', 'lock.release'):
       return True
@@ -419,6 +467,8 @@ CFGS = [
     {'subject': 'mixin', 'watchers': 2, 'updaters': 2, 'updates': 2},
     {'subject': 'user_input', 'watchers': 1, 'updaters': 1, 'updates': 2},
     {'subject': 'user_input', 'watchers': 2, 'updaters': 2, 'updates': 1},
+    {'subject': 'plug_manager', 'watchers': 1, 'updaters': 1, 'updates': 2},
+    {'subject': 'plug_manager', 'watchers': 2, 'updaters': 1, 'updates': 1},
 ]
 
 
@@ -433,7 +483,9 @@ def setup_lines():
   vmode.setup()
   import openhtf.util as util  # pylint: disable=g-import-not-at-top
   from openhtf.plugs import user_input  # pylint: disable=g-import-not-at-top
-  V.monitor_lines(V.code_objects_of(util.SubscribableStateMixin, user_input.UserInput) + vmode.executor_code_objects())
+  import openhtf.plugs as plugs_  # pylint: disable=g-import-not-at-top
+  V.monitor_lines(V.code_objects_of(util.SubscribableStateMixin, user_input.UserInput, plugs_.PlugManager.wait_for_plug_update) +
+                  vmode.executor_code_objects())
 
 
 def plan(tier, seed):
@@ -442,7 +494,7 @@ def plan(tier, seed):
   for ci, cfg in enumerate(CFGS):
     jobs.append({'kind': 'enum', 'name': 'b1.%d' % ci, 'cfg': cfg, 'bound': 1, 'shard': 0, 'nshards': 1, 'complete': True})
   # bound 2: complete for the 1x1 configurations in thorough, seed-selected shards in quick
-  for ci in (0, 1, 5):
+  for ci in (0, 1, 5, 7):
     nsh = 64 if q else 16
     which = [(seed * 4 + j) % nsh for j in range(4)] if q else range(nsh)
     for sh in which:
